@@ -702,6 +702,11 @@ static std::vector<Def> make_defs() {
     const Q* s = a[0]; const Q* n = a[1]; static const int m[3][3] = {{0, 1, 2}, {1, 3, 4}, {2, 4, 5}};
     for (int i = 0; i < 3; i++) { out[i] = 0; mag[i] = 0; for (int j = 0; j < 3; j++) { out[i] += s[m[i][j]] * n[j]; mag[i] += fabsq(s[m[i][j]] * n[j]); } }
   };
+  auto ptraction = [](const Q* const* a, Q* out, Q* mag) {   // planar traction: the in-plane part of sigma . (nx, ny, 0)
+    const Q* s = a[0]; const Q* n = a[1]; static const int m[2][2] = {{0, 1}, {1, 3}};
+    for (int i = 0; i < 2; i++) { out[i] = 0; mag[i] = 0; for (int j = 0; j < 2; j++) { out[i] += s[m[i][j]] * n[j]; mag[i] += fabsq(s[m[i][j]] * n[j]); } }
+  };
+  d.push_back({"PlanarTraction(Stress,PlanarDirection)", ptraction}); d.push_back({"Stress.PlanarTraction(PlanarDirection)", ptraction});
   d.push_back({"Traction(Stress,Direction)", traction}); d.push_back({"Stress.Traction(Direction)", traction}); d.push_back({"Stress * Direction", traction});
   return d;
 }
